@@ -698,3 +698,68 @@ def run_extra(ctx):
     """rules armed after run(): shared rules that need nothing from run()'s locals"""
     from ..shared import setters_keep_other_settings_rule
     setters_keep_other_settings_rule(ctx, [ctx.prog.crate(c) for c in ["wow_adt"]], "C14", "adt_builder::AdtBuilder$", floor=15)
+    adt = ctx.prog.crate("wow_adt")
+    from .c10 import _bval, _NoEval
+    # (1) a complete tile is 16 x 16 chunks — the MCIN table the crate writes has that many slots: the builder's limit on the number of
+    # explicit chunks accepts a full tile and refuses one chunk more
+    R_full = ctx.rule("C14.builder-accepts-a-full-tile", "AdtBuilder::build's guard on mcnk_chunks.len() is false for N and true for N + 1, N = the number of MCIN entries the crate allocates (McinChunk::default)", floor=1)
+    dflt = next((f for f in adt.fn_list if f.hir and re.search(r"McinChunk as core::default::Default>::default$", f.path)), None)
+    N = None
+    if dflt is not None:
+        for c_ in hirq.walk(dflt.hir["body"]):
+            if c_.get("k") in ("call", "mcall") and re.search(r"from_elem$", c_.get("fn") or ""):
+                N = hirq.const_int(c_["args"][-1])
+    bld = adt.fns.get("wow_adt::builder::adt_builder::AdtBuilder::build")
+    if N is None or bld is None or not bld.hir:
+        ctx.bad(R_full, "full-tile|missing", "-", "McinChunk::default's entry count or AdtBuilder::build not found", "anchor gone")
+    else:
+        ctx.saw_fn(bld)
+        guards = [g for g in hirq.find(bld.hir["body"], "if") if g["c"].get("k") != "letx" and re.search(r"mcnk_chunks\.len\(\)", hirq.render(g["c"]))
+                  and any(x.get("k") == "ret" for x in hirq.walk(g["then"])) and "Err" in hirq.render(g["then"])]
+        if not guards:
+            ctx.bad(R_full, "full-tile|no-guard", bld.where, "no rejecting guard on mcnk_chunks.len() in build", "shape changed")
+        for g in guards:
+            try:
+                at_n = _bval(g["c"], {"__leaf__": (lambda r_: N if r_.endswith("mcnk_chunks.len()") else None), "__ty__": adt.ty}, {})
+                over = _bval(g["c"], {"__leaf__": (lambda r_: N + 1 if r_.endswith("mcnk_chunks.len()") else None), "__ty__": adt.ty}, {})
+            except _NoEval as e:
+                ctx.bad(R_full, "full-tile|not-evaluable", "%s:%d" % (bld.file, g.get("ln") or 0), "guard not evaluable: %s" % e, "shape changed")
+                continue
+            if at_n or not over:
+                ctx.bad(R_full, "full-tile|limit", "%s:%d" % (bld.file, g.get("ln") or 0), "`%s` %s" % (hirq.render(g["c"])[:60], ("rejects a tile with %d chunks, the number of MCIN slots" % N) if at_n else ("accepts %d chunks, one more than there are MCIN slots" % (N + 1))),
+                        "a complete 16x16 tile — and therefore every parsed complete tile handed back to the builder — cannot be built" if at_n else "the extra chunk has no MCIN slot")
+            else:
+                ctx.ok(R_full, {"guard": hirq.render(g["c"])[:60], "N": N})
+    # (2) what is parsed per item starts fresh per item: an Option the loop fills only conditionally (no else) and stores into the
+    # per-item record must be declared inside the loop — declared outside, item k inherits the value parsed for an earlier item
+    R_fresh = ctx.rule("C14.per-item-optionals-start-fresh-per-item", "in wow-adt's parsers: every Option-typed local that a `for` loop assigns only under a condition and then stores into that iteration's record is declared inside the loop body", floor=3)
+    for f in adt.fn_list:
+        if f.kind == "Closure" or not f.hir or "::tests::" in f.path or not re.search(r"parser|chunks/|mh2o|chunk\.rs", f.file):
+            continue
+        body = f.hir["body"]
+        for lp in hirq.find(body, "for"):
+            inner_lets = {l["pat"]["name"] for l in hirq.find(lp["body"], "let") if l["pat"].get("k") == "bind"}
+            assigned = {}
+            for a in hirq.find(lp["body"], "assign"):
+                l_ = hirq.strip(a["l"])
+                if l_.get("k") == "path" and "local" in l_["res"] and re.search(r"option::Option<", adt.ty(l_.get("t")) or ""):
+                    assigned.setdefault(l_["res"]["local"], []).append(a)
+            for v, asg in assigned.items():
+                # stored into the iteration's record: appears as a struct-literal field value or a push argument in the loop body
+                stored = any((x.get("k") == "struct" and any(hirq.strip(e).get("k") == "path" and hirq.strip(e)["res"].get("local") == v for _n, e in x["fields"])) or
+                             (x.get("k") == "mcall" and x["m"] == "push" and any(y.get("k") == "path" and (y.get("res") or {}).get("local") == v for a_ in x["args"] for y in hirq.walk(a_)))
+                             for x in hirq.walk(lp["body"]))
+                if not stored:
+                    continue
+                # unconditional (re)initialisation at the top level of the loop body also counts as fresh
+                top = hirq.strip(lp["body"]).get("stmts") or []
+                reset = any(st_.get("k") == "assign" and hirq.strip(st_["l"]).get("k") == "path" and hirq.strip(st_["l"])["res"].get("local") == v for st_ in top) or \
+                    any(st_.get("k") in ("semi", "expr") and (st_.get("e") or {}).get("k") == "assign" and hirq.render((st_.get("e") or {}).get("l")) == v for st_ in top)
+                ctx.saw_fn(f)
+                inst = {"fn": norm(f.path).split("::")[-1], "local": v, "loop_line": lp.get("ln")}
+                if v in inner_lets or reset:
+                    ctx.ok(R_fresh, inst)
+                else:
+                    ctx.bad(R_fresh, "%s|%s|carried-across-items" % (inst["fn"], v), "%s:%d" % (f.file, asg[0].get("ln") or lp.get("ln") or 0),
+                            "`%s` is declared outside the `for` loop, assigned only under a condition inside it, and stored into each item's record" % v,
+                            "an item for which the condition is false keeps the value parsed for an earlier item: it parses back with data it never had, and the next write emits that data (the file grows, content differs)")
